@@ -12,6 +12,7 @@ EXPLANATION = (
     "R4 the proposer action is bound into the header (seal applies Some(action) on every path; applying it writes the reward coin with covhash action.reward_dest on every path); "
     "a sealed state cannot be forged or mutated from outside the crate (compile-fail witnesses, thorough tier)."
     " R5 activation table: every stage of the state machine consults the activation predicate of its own TIP (a substitution of one tip_9xx() for another in a stage is reported; a moved or restructured use is undecided), and every predicate tests its own TIP_9xx_HEIGHT constant. Imports C17.R2/R3: the fee vote reaches the header only through the multiplier step, so the step must be the exact formula in the vote."
+    " R2 decides first that apply_tx_batch is called at all. Imports C13.R3f and C17.R3 `abort/*` (no assertion over the multiplier on the sealing path)."
 )
 NOT_DECIDED = ["that honestly produced blocks are accepted on every node needs C03 (determinism) and C08 (restart); reported there",
                "Header's derived PartialEq compares all fields: read from melstructs 0.3.3 (trusted base)"]
